@@ -213,6 +213,41 @@ def handle (inp out : Sexp) : CaseResult :=
                   (if same then [] else ["layout-mismatch"]) ++ (if ren then [] else ["not-renderable"]) ++
                   (if canon then [] else ["canonical-relex-differs"]),
           detail := s!"text={repr text} renderable={ren} same={same} canon={canon} impl={out}" }
+  | .list [.atom "defuse", .atom kind, .str ident] =>
+    match decodeOut out with
+    | none => .bad s!"undecodable output {out}"
+    | some o =>
+      let id := ident.toList
+      let count : Nat := match kind with
+        | "waveform" => 4 | "gate" => 3 | "gateplain" => 3 | "circuit" => 2 | "calibration" => 4
+        | "label" => 4 | "extern" => 2 | "frame" => 4 | "region" => 4 | _ => 0
+      let scope := Spec.validIdent id &&
+        (kind == "label" || kind == "frame" || !QV.Tok.isReservedWord id) &&
+        (kind != "region" || !Spec.exprReserved id)
+      let expected := Out.names (List.replicate count ident)
+      -- model: the spelling lexes to one name token (Identifier; Target after `@`; inside a string for frames)
+      -- which every definition and use site stores unchanged
+      let pred : Option Out :=
+        if kind == "frame" then (if scope then some expected else none)
+        else if kind == "label" then
+          (match QV.Lex.lex ('@' :: id) with
+           | some [.target s] => some (.names (List.replicate count (String.ofList s)))
+           | some _ => none
+           | none => some .err)
+        else
+          (match QV.Lex.lex id with
+           | some [.identifier s] =>
+             if kind == "region" && Spec.exprReserved s then none
+             else some (.names (List.replicate count (String.ofList s)))
+           | some _ => none
+           | none => some .err)
+      { agree := (match pred with | some p => p == o | none => true),
+        specOk := !scope || o == expected,
+        nontrivial := scope,
+        tags := ["defuse", s!"defuse-{kind}", if scope then "valid-ident" else "not-in-scope",
+                 (match o with | .names _ => "out-names" | .err => "out-err" | .other => "out-other"),
+                 if id.any Char.isUpper && id.any Char.isLower then "mixedcase" else "onecase"],
+        detail := s!"kind={kind} ident={repr ident} expected={repr expected} model={repr pred} impl={repr o}" }
   | .list [.atom "rerender", .str text] =>
     -- the harness lexed `text` with the real lexer, laid the tokens out canonically with its Rust mirror of
     -- `QV.Render.render` and lexed that again with the real lexer
